@@ -441,6 +441,29 @@ class C14(core.Check):
         nsmall = 450 if self.tier == 'quick' else len(small)
         for i, steps in enumerate(small[:nsmall]):
             cases.append(dict(doc=docs[i % len(docs)], steps=steps, seed=rng.randrange(1 << 30), frm=rng.choice(['doc', 'doc', 'elem', 'coll']), sel=rng.random()))
+        # directed: arithmetic applied left to right where literal numbers stand next to each other after a run-time value
+        ndir = 0
+        for op1 in ('-', '*', 'mod', '+', 'div'):
+            for op2 in ('+', '*', 'mod', '-'):
+                if op1 == 'div' and op2 == 'mod':
+                    continue
+                for lhs in (['attr', 'n'], ['pos']):
+                    e = ['ar', op2, ['ar', op1, lhs, ['num', rng.choice([1, 2, 4])]], ['num', rng.choice([1, 2, 3])]]
+                    pred = ['cmp', rng.choice(['=', '<', '>=']), e, ['num', rng.randint(0, 4)]]
+                    cases.append(dict(doc=docs[ndir % len(docs)], steps=[['//', None, rng.choice(NAMES + ['*']), [pred]]], seed=rng.randrange(1 << 30),
+                                      frm='doc', sel=0.0))
+                    ndir += 1
+        # directed: a name that occurs nested in itself, reached by leading "/name" steps from the document, the root element and collections
+        nest = [['S', 'div', [['n', '1', '"']], False], ['S', 'div', [['n', '2', '"']], False], ['S', 'div', [['n', '3', '"']], False], ['E', 'div'],
+                ['S', 'span', [['n', '4', '"']], False], ['E', 'span'], ['E', 'div'], ['S', 'span', [['n', '5', '"']], False], ['S', 'span', [['n', '6', '"']], False],
+                ['E', 'span'], ['E', 'span'], ['S', 'div', [['n', '6', '"']], False], ['T', 't'], ['E', 'div'], ['E', 'div']]
+        gt1 = ['cmp', '>', ['attr', 'n'], ['num', 1]]
+        for steps in ([['/', None, 'div', []]], [['/', None, 'div', []], ['/', None, 'div', []]], [['/', None, 'div', [gt1]]], [['/', None, 'span', []]],
+                      [['/', None, 'div', []], ['/', None, 'span', []], ['/', None, 'span', []]], [['/', None, '*', []], ['/', None, 'div', []]],
+                      [['//', None, 'div', []], ['/', None, 'div', []]], [['/', 'child', 'div', []]], [['/', None, 'div', [['num', 1]]]]):
+            for frm, sel in (('doc', 0.0), ('elem', 0.0), ('elem', 0.15), ('coll', 0.0), ('coll', 0.5)):
+                cases.append(dict(doc=nest, steps=steps, seed=rng.randrange(1 << 30), frm=frm, sel=sel))
+                ndir += 1
         nrand = 250 if self.tier == 'quick' else 6000
         for i in range(nrand):
             big = rng.random() < 0.3
